@@ -355,8 +355,13 @@ func Gen(r *core.Rand, req bool, maxBody int) *Spec {
 			for i, n := 0, r.Intn(3); i < n; i++ {
 				s.Trailer = append(s.Trailer, KV{r.Pick("X-Checksum", "X-T", "Expires", "A-Tr"), r.Pick("v", "abc def", "0", "")})
 			}
-			if len(s.Trailer) == 0 || r.Chance(1, 4) {
+			if len(s.Trailer) == 0 || r.Chance(1, 2) {
+				// trailers that are announced (`Trailer:` line) and then not sent: all / some / none of
+				// the announced names arrive
 				s.Decl = []string{"X-Unsent"}
+				if r.Bool() {
+					s.Decl = append(s.Decl, r.Pick("X-Later", "Server-Timing", "X-Digest"))
+				}
 			}
 		}
 		for i, n := 0, r.Intn(4); i < n; i++ {
